@@ -146,6 +146,8 @@ var reg = vk.Registry{"period": func(raw json.RawMessage) *vk.Violation {
 	return check(c)
 }}
 
+func init() { reg["sequence"] = vk.SequenceReplayer(reg) }
+
 func TestReplay(t *testing.T) { vk.RunReplay(t, reg) }
 
 // render writes a non-negative number of nanoseconds in one of several
@@ -292,7 +294,7 @@ func TestPeriods(t *testing.T) {
 		}
 		classify(c)
 		rec.Sample(strings.Split("absolute relative", " ")[map[bool]int{false: 0, true: 1}[c.Relative]], c)
-		rec.Report(t, "period", check(c))
+		rec.ReportSeq(t, "period", c, func() *vk.Violation { return check(c) })
 	})
 }
 
